@@ -492,7 +492,8 @@ PDU* PacketSender::recv_match_loop(const vector<int>& sockets,
                     else {
                         socket_len_type length = addrlen;
                         size = ::recvfrom(*it, (char*)buffer, buffer_size, 0, link_addr, &length);
-                        if (pdu.matches_response(buffer, size)) {
+                        // recvfrom can fail even if select said the socket was readable
+                        if (size >= 0 && pdu.matches_response(buffer, size)) {
                             return Internals::pdu_from_flag(pdu.pdu_type(), buffer, size);
                         }
                     }
